@@ -76,6 +76,12 @@ class ConvertStreamToSnaxStreamPattern(RewritePattern):
                 )
                 stride, bound = next(access_iter)
             else:
+                # a run longer than a bank: only contiguous if the elements are adjacent
+                element_type = op.body.block.args[operand].type
+                assert isinstance(element_type, dart.StreamType)
+                assert isinstance(element_type.element_type, builtin.FixedBitwidthType)
+                if stride != element_type.element_type.size:
+                    raise RuntimeError("Non-contiguous access is not possible for this streamer configuration")
                 stride, bound = TCDM_BANK_WIDTH, (stride * bound) // TCDM_BANK_WIDTH
 
             # fill up all spatial strides
